@@ -77,6 +77,15 @@ def run(cx):
             rets = [v for _, v in _I.returns(fn, cx.F)]
             inplace = xs in ([(T, 'BitXor(%s, $msg[%s])' % (T, I))], [(T, 'BitXor($msg[%s], %s)' % (I, T))]) and rets == [KS]
             xor_ok = inplace
+        if not ps and not inplace:
+            z = _I.zip_xor_collect(fn, cx.F)
+            if z is not None:
+                # msg[..KL].iter().zip(keys.iter()).map(|(m, k)| m ^ k).collect(): the key stream has KL words (C08), the
+                # message is cut to KL
+                zs = sorted(z, key=lambda x_: x_[0])
+                xor_ok = sorted(z) == sorted([('$msg', KL), (KS, None)]) or sorted(z) == sorted([('$msg', KL), (KS, KL)])
+                if xor_ok:
+                    ps = ['<collected>']
         cx.add('I-EEA', 'encrypt/xor', xor_ok,
                'output word i = msg[i] xor keystream[i] for i < ceil(LENGTH/32)%s' % (' (in place in the key-stream vector, which is returned)' if inplace else ''), fn.loc(), {'push': ps})
         # trailing-bit mask
